@@ -189,19 +189,21 @@ fn sig_corners(_ctx: &Ctx, r: &mut Report) {
     }
 
     // --- C03: type / const parameters that no argument mentions must be forwarded explicitly
-    for item in ["fn f<T: Default + std::fmt::Debug>(deps: &impl A) -> String { format!(\"{:?}\", T::default()) }", "fn f<const N: usize>(deps: &impl A) -> usize { N }", "fn f<T: Clone>(deps: &impl A, t: T) -> T { t }"] {
+    for item in ["fn f<T: Default + std::fmt::Debug>(deps: &impl A) -> String { format!(\"{:?}\", T::default()) }", "fn f<const N: usize>(deps: &impl A) -> usize { N }", "fn f<T: Clone>(deps: &impl A, t: T) -> T { t }", "fn f<T: Default>(deps: &impl A) -> T { T::default() }"] {
         let input = format!("#[entrait(Tr)] {}", item);
         r.guarded(&input, |r| {
             let Some(x) = expand_ok(r, &input, "Tr", item) else { return };
             let Some(t) = find_trait(&x.file.items, "Tr") else { return };
             let Some(im) = find_impls(&x.file.items, "Tr").first().copied() else { return };
             for (tm, m) in trait_methods(t).iter().zip(impl_methods(im)) {
+                // a parameter is inferable if an argument type or the return type mentions it
                 let mut arg_types = TokenStream::new();
                 for a in &tm.sig.inputs {
                     if let syn::FnArg::Typed(p) = a {
                         p.ty.to_tokens(&mut arg_types);
                     }
                 }
+                tm.sig.output.to_tokens(&mut arg_types);
                 let lifted: Vec<String> = t.generics.params.iter().filter_map(|p| match p {
                     syn::GenericParam::Type(t) => Some(t.ident.to_string()),
                     syn::GenericParam::Const(c) => Some(c.ident.to_string()),
@@ -370,6 +372,7 @@ fn trait_corners(_ctx: &Ctx, r: &mut Report) {
                             p.ty.to_tokens(&mut arg_types);
                         }
                     }
+                    m.sig.output.to_tokens(&mut arg_types);
                     for p in &m.sig.generics.params {
                         let g = match p {
                             syn::GenericParam::Type(t) => t.ident.to_string(),
